@@ -67,7 +67,7 @@ def _batch(specs):
     faulthandler.enable()
     out = []
     for spec in specs:
-        faulthandler.dump_traceback_later(spec.get("timeout", 300), exit=True)
+        faulthandler.dump_traceback_later(spec.get("timeout", 1200), exit=True)
         try:
             out.append(execute(spec))
         except BaseException as e:  # harness error, never a verdict
